@@ -9,6 +9,8 @@ import (
 	"log"
 	"os"
 	"strings"
+
+	"github.com/sirupsen/logrus"
 )
 
 var out = bufio.NewWriterSize(os.Stdout, 1<<20)
@@ -42,6 +44,7 @@ var subs = map[string]func(args []string){}
 
 func main() {
 	log.SetOutput(ioutil.Discard)
+	logrus.SetOutput(ioutil.Discard)
 	if len(os.Args) < 2 || subs[os.Args[1]] == nil {
 		fmt.Fprintln(os.Stderr, "usage: harness <sub>")
 		os.Exit(2)
